@@ -593,8 +593,9 @@ class C10(Prop):
             try:
                 ru = parse_url("http://" + HOST + url).request_uri
                 out.append("ok " + enc(ru))
-                lines.append(f"pool {cfg_tokens(ru, bs)} {enc(sent_meth)} {enc(ru)} {hs_tok} {btok} {int(chunked)}")
-                out.append(answer)
+                if not ru.startswith("//"):      # '//…' is re-parsed as an authority by the pool: outside the model's domain
+                    lines.append(f"pool {cfg_tokens(ru, bs)} {enc(sent_meth)} {enc(ru)} {hs_tok} {btok} {int(chunked)}")
+                    out.append(answer)
             except Exception as e:           # parse_url refuses: nothing may have been written
                 out.append("err " + exc_name(e))
         elif level == "manager":
